@@ -75,6 +75,8 @@ def cases(tier):
         if k not in seen:
             seen.add(k)
             uniq.append(c)
+    for h in explorer.soak_histories():
+        uniq.append({"seed": "mini", "ops": h, "single": True})
     for n in (70, 300) if tier == "quick" else (70, 130, 300, 600):
         uniq.append({"mode": "big", "n": n})
     # E1s: explicit-state BFS over link topologies (de-duplicated on the canonical state), then every removal
